@@ -73,9 +73,16 @@ def oracle_run(cfg):
             a = DWTForward(J=1, wave=(wc.dec_lo, wc.dec_hi), mode=mode)(torch.tensor(X))
             b = DWTForward(J=1, wave=(wc.dec_lo, wc.dec_hi, wc.dec_lo, wc.dec_hi), mode=mode)(torch.tensor(X))
             c = DWTForward(J=1, wave=cfg['wave'], mode=mode)(torch.tensor(X))
-            for u, v in ((a, b), (a, c)):
+            d = DWTForward(J=1, wave=wc, mode=mode)(torch.tensor(X))                      # a pywt.Wavelet object
+            e = DWTForward(J=1, wave=(np.array(wc.dec_lo), np.array(wc.dec_hi)), mode=mode)(torch.tensor(X))
+            for u, v in ((a, b), (a, c), (a, d), (a, e)):
                 if not (torch.equal(u[0], v[0]) and torch.equal(u[1][0], v[1][0])):
-                    return dict(detail='2-tuple / name / repeated 4-tuple constructions disagree')
+                    return dict(detail='2-tuple / name / Wavelet object / array / repeated 4-tuple constructions disagree')
+            # the same for the inverse
+            ia = DWTInverse(wave=(wc.rec_lo, wc.rec_hi), mode=mode)(a)
+            for w in ((wc.rec_lo, wc.rec_hi, wc.rec_lo, wc.rec_hi), cfg['wave'], wc, (np.array(wc.rec_lo), np.array(wc.rec_hi))):
+                if not torch.equal(ia, DWTInverse(wave=w, mode=mode)(a)):
+                    return dict(detail='inverse: 2-tuple / name / Wavelet object / array / repeated 4-tuple constructions disagree')
             return None
         if chk == 'shared':
             lo, hi, rlo, rhi = [np.array(f) for f in wc.filter_bank]
